@@ -149,3 +149,46 @@ def op_term(op):
 
 def coq_term(seq):
     return "[" + "; ".join(op_term(op) for op in seq) + "]"
+
+
+# ---- family builder_sequence: the header sequence of CTParserBuilder::build_inner (C13/SettingsModel.v) ----------------
+SETTING_KEYS = ["yacckind", "recoverer", "serialisation_format"]
+SECTION_EXTRA = ["test_files", "lexerkind", "zzz", "a", "recoverers", "yacckin", "serialisation_forma", "yacckinds", "s"]
+
+
+def builder_sequence(rng):
+    """-> (sequence, given, section): map 0 = the builder's header, map 1 = the parsed %grmtools section (inserts only);
+    Header::new(); entry(k): insert_entry + set_merge_behavior(Ours) when the builder was given k, mark_required for a
+    yacckind that was not given; merge_from(section); get / mark_used of the three keys in the code's order; unused; missing"""
+    given = {k: (rng.randint(0, 9) if rng.random() < 0.5 else None) for k in SETTING_KEYS}
+    pool = [k for k in SETTING_KEYS if rng.random() < 0.5] + [k for k in SECTION_EXTRA if rng.random() < 0.25]
+    rng.shuffle(pool)
+    section = {k: rng.randint(0, 9) for k in pool}
+    seq = []
+    if given["yacckind"] is not None:
+        seq.append((10, 0, "yacckind", [(2, given["yacckind"]), (8, 2)]))
+    else:
+        seq.append((10, 0, "yacckind", [(6, None)]))
+    for k in ("recoverer", "serialisation_format"):
+        if given[k] is not None:
+            seq.append((10, 0, k, [(2, given[k]), (8, 2)]))
+    seq += [(0, 1, k, section[k]) for k in pool]
+    seq += [(11, 0), (1, 0, "yacckind"), (4, 0, "yacckind"), (4, 0, "recoverer"), (1, 0, "recoverer"),
+            (4, 0, "serialisation_format"), (1, 0, "serialisation_format"), (12, 0), (13, 0)]
+    return seq, given, section
+
+
+def builder_expected_tail(given, section):
+    """what C13_settings_in_force says the last nine results are (integer lists, the harness's encoding)"""
+    def pick(k):
+        v = given[k] if given[k] is not None else section.get(k)
+        return [0] if v is None else [1, v]
+
+    def keys(ks):
+        out = [len(ks)]
+        for k in ks:
+            out += [len(k.encode())] + list(k.encode())
+        return out
+    unused = sorted((k for k in section if k not in SETTING_KEYS), key=lambda k: k.encode())
+    missing = [] if pick("yacckind") != [0] else ["yacckind"]
+    return [[0], pick("yacckind"), [], [], pick("recoverer"), [], pick("serialisation_format"), keys(unused), keys(missing)]
